@@ -400,7 +400,7 @@ def norm_json(fd, v):
         return [norm_json(fd['e'], x) for x in (v or [])]
     if k == 'map':
         return [[norm_json(fd['key'], kk), norm_json(fd['val'], vv)] for kk, vv in (v or [])]
-    if v == '__unset__' or (v is None and fd.get('default') is not None):
+    if v == '__unset__' or (v is None and fd.get('default') is not None and not fd.get('diamond')):
         v = fd['default']            # encoded default comes back; an omitted field parses to its default (documented)
     if v is None:
         return None
@@ -790,9 +790,24 @@ def _has_false_bool(desc, vals):
     return False
 
 
+def _mark_diamond(desc):
+    """A field name declared by BOTH bases of a two-base class: the attribute is read through the first base's descriptor (Python's
+    MRO) while the later include's field is the one encoded, so an explicit None reads back as None whatever default the encoded
+    field has - the decoded model equals the assigned one."""
+    inh = desc.get('inherit')
+    if not inh or len(inh.get('bases', [])) < 2:
+        return
+    names = [{f['n'] for f in b['fields']} for b in inh['bases']]
+    both = names[0] & names[1]
+    for f_ in desc['fields']:
+        if f_['n'] in both:
+            f_['diamond'] = True
+
+
 def run_generated(case):
     r = Result()
     desc = case['desc']
+    _mark_diamond(desc)
     classes = {}
     try:
         cls = mk_class(desc, classes)
@@ -881,6 +896,8 @@ def _with_inheritance(draw, desc):
         if real['k'] in ('uint', 'bytes', 'text', 'bool') and not any(o['n'] == real['n'] for o in overrides):
             bf[j] = {'k': 'bytes', 't': real['t'], 'n': real['n']} if real['k'] != 'bytes' else {'k': 'text', 't': real['t'], 'n': real['n']}
             bases[1]['fields'].insert(draw(st.integers(0, len(bases[1]['fields']))), real)
+            # (attribute reads resolve through the FIRST base's descriptor - no default -, encoding through the later include:
+            # see _mark_diamond)
     return {'fields': fields, 'inherit': {'bases': bases, 'decl': decl}}
 
 
